@@ -247,6 +247,10 @@ def count_files(root: pathlib.Path) -> int:
 class Runner:
     def __init__(self, seed: int, deadline: float) -> None:
         self.deadline = deadline
+        # runs on the big model are not started in the last 40 % of the budget
+        self.heavy_deadline = time.time() + 0.6 * (deadline - time.time())
+        # runs still going at the end of the budget are cut shortly afterwards
+        self.hard_deadline = deadline + 0.15 * (deadline - time.time())
         self.seed = seed
         self.shim_dir = env.new_dir("c22-shim")
         (self.shim_dir / "sitecustomize.py").write_text(SHIM)
@@ -267,10 +271,11 @@ class Runner:
 
     def run(self, spec: Spec, shared_tmp: Optional[pathlib.Path]) -> Observation:
         obs = Observation(spec)
-        if time.time() > self.deadline:
+        group = spec.group
+        limit = self.deadline if group.weight <= 1 else self.heavy_deadline
+        if time.time() > limit:
             obs.status = "skipped"
             return obs
-        group = spec.group
         t0 = time.time()
         try:
             workdir = env.new_dir("c22")
@@ -356,10 +361,11 @@ class Runner:
                     env=self.child_env(spec, tmpdir, workdir),
                     stdout=subprocess.PIPE,
                     stderr=subprocess.PIPE,
-                    timeout=group.timeout,
+                    timeout=min(group.timeout, max(20.0, self.hard_deadline - time.time())),
                 )
             except subprocess.TimeoutExpired:
-                obs.status = "timeout"
+                # cut by the watchdog or by the end of the wall budget: never a verdict
+                obs.status = "timeout" if time.time() < self.hard_deadline else "skipped"
                 return obs
             obs.rc = proc.returncode
             replacements = sorted(
@@ -708,6 +714,7 @@ def main(argv) -> int:
         chk.hist("run_status", obs.status)
         if obs.status == "skipped":
             chk.count("references_skipped_by_budget")
+            obs.cleanup()
             return
         if obs.status == "harness-error":
             chk.harness_error(f"reference of {group.name}: {obs.detail}")
@@ -738,6 +745,7 @@ def main(argv) -> int:
         chk.hist("run_status", obs.status)
         if obs.status == "skipped":
             chk.count("runs_skipped_by_budget")
+            obs.cleanup()
             return
         chk.count("runs_executed")
         if obs.status == "harness-error":
